@@ -49,8 +49,20 @@ def strategy_c09(draw):
         # second-order-correction steps need nonlinear constraints and a few iterations
         prof = dict(PROFILE, **S.SOC_PRONE)
     base = draw(S.problems(prof))
+    tight = draw(st.integers(0, 7)) == 0
+    if tight:
+        # constraints active at the starting point, a tiny initial radius and feasibility_tol = 0 (or tiny):
+        # evaluations violated by 1e-12 .. 1e-8 do not satisfy a request
+        from ..engine import dec as _dec, enc as _enc
+        from .c03 import TIGHT
+        sp = _dec(draw(S.problems(dict(TIGHT, callback_prob=0, target_prob=0))))
+        sp["options"]["feasibility_tol"] = draw(st.sampled_from([0.0, 0.0, 1e-12, 1e-10]))
+        sp["options"]["radius_init"] = draw(st.sampled_from([1e-12, 1e-9, 1e-9, 1e-8]))
+        sp["options"].pop("radius_final", None)
+        base = _enc(sp)
     plan = {
-        "req": draw(S.wsample([("target", 4), ("callback", 3), ("feas", 3), ("both", 2), ("none", 1)])),
+        "req": "target" if tight else draw(S.wsample([("target", 4), ("callback", 3), ("feas", 3), ("both", 2),
+                                                       ("none", 1)])),
         "pos": pos,
         "which": draw(st.integers(0, 50)),
         "exact": draw(st.booleans()),
